@@ -459,6 +459,14 @@ Theorem C18_source_account_sortkey : forall (call_ref : nat -> list pv -> pv), f
 Proof. exact account_sortkey_src. Qed.
 Print Assumptions C18_source_account_sortkey.
 
+Theorem C18_source_findfirst : forall (call_ref : nat -> list pv -> pv), forall p vs, call_function call_ref prim_env env_findfirst [pstr p; PList (pstrs vs)] = lift (f_findfirst_lit p vs).
+Proof. exact findfirst_src. Qed.
+Print Assumptions C18_source_findfirst.
+
+Theorem C18_source_date_bin_str : forall (call_ref : nat -> list pv -> pv), forall s source origin, call_ref (ref_of "beanquery.query_env.interval"%string) [pstr s] = match interval s with None => PNone | Some r => p_rd r end -> (forall r, interval s = Some r -> call_ref (ref_of "beanquery.query_env.date_bin"%string) [p_rd r; PV (VDate source); PV (VDate origin)] = PV (date_bin_rd r source origin)) -> call_function call_ref prim_env env_date_bin_str [pstr s; PV (VDate source); PV (VDate origin)] = raised (date_bin s source origin).
+Proof. exact date_bin_str_src. Qed.
+Print Assumptions C18_source_date_bin_str.
+
 Theorem C18_source_length_apply_func : forall (call_ref : nat -> list pv -> pv), forall s, call_function call_ref prim_env env_length [pstr s] = lift (apply_func FLength [VStr s]).
 Proof. exact length_apply_func. Qed.
 Print Assumptions C18_source_length_apply_func.
@@ -490,3 +498,20 @@ Example C18_source_example_int :
 Proof. split; vm_compute; reflexivity. Qed.
 Example C18_source_example_valid_ord : valid_ord 738945 = true.
 Proof. reflexivity. Qed.
+Example C18_source_example_findfirst :
+  call_function (fun _ _ => PNone) prim_env env_findfirst
+    [pstr (s2z "b"); PList (pstrs [s2z "bz"; s2z "a"; s2z "ba"])] = Ok (pstr (s2z "ba")).
+Proof. vm_compute. reflexivity. Qed.
+(* the hypotheses of C18_source_date_bin_str are satisfiable: callees that behave as the models of interval and
+   date_bin on date_bin('1 day', 2024-02-29, 2024-01-01) *)
+Example C18_source_example_date_bin_str :
+  let call_ref := fun (k : nat) (_ : list pv) =>
+    if Nat.eqb k (ref_of "beanquery.query_env.interval"%string) then p_rd (rd_make 0 0 1)
+    else PV (date_bin_rd (rd_make 0 0 1) 738945 738886) in
+  interval (s2z "1 day") = Some (rd_make 0 0 1) /\
+  call_ref (ref_of "beanquery.query_env.interval"%string) [pstr (s2z "1 day")] = p_rd (rd_make 0 0 1) /\
+  call_ref (ref_of "beanquery.query_env.date_bin"%string) [p_rd (rd_make 0 0 1); PV (VDate 738945); PV (VDate 738886)] =
+    PV (date_bin_rd (rd_make 0 0 1) 738945 738886) /\
+  call_function call_ref prim_env env_date_bin_str [pstr (s2z "1 day"); PV (VDate 738945); PV (VDate 738886)] =
+    Ok (PV (VDate 738945)).
+Proof. vm_compute. repeat split; reflexivity. Qed.
